@@ -23,7 +23,12 @@ _mod_cache = {}
 def harness_module(name):
     """compile /verif/harness/<name>.cpp (which #includes repo sources) to IR and parse it"""
     if name not in _mod_cache:
-        ll = build.compile_ir(os.path.join(HARNESS, name + '.cpp'))
+        src = os.path.join(HARNESS, name + '.cpp')
+        extra = []
+        for ln in open(src):
+            if ln.startswith('// IRFLAGS:'):
+                extra += ln.split(':', 1)[1].split()
+        ll = build.compile_ir(src, extra=extra)
         _mod_cache[name] = (llir.load_module(ll), ll)
     return _mod_cache[name][0]
 
@@ -134,3 +139,34 @@ def read_table(path):
         except ValueError:
             continue
     return rows
+
+
+def vars_of(e, acc=None):
+    acc = {} if acc is None else acc
+    seen = set()
+
+    def walk(t):
+        if t.get_id() in seen:
+            return
+        seen.add(t.get_id())
+        if z3.is_const(t) and t.decl().kind() == z3.Z3_OP_UNINTERPRETED:
+            acc[t.get_id()] = t
+        for c in t.children():
+            walk(c)
+    walk(e)
+    return acc
+
+
+def relevant_pc(pc, exprs):
+    """sub-list of the path condition mentioning only variables of `exprs` (sound weakening of the
+    assumptions for an unsat query)"""
+    vs = {}
+    for e in exprs:
+        if isinstance(e, z3.ExprRef):
+            vars_of(e, vs)
+    out = []
+    for c in pc:
+        cv = vars_of(c)
+        if cv and all(k in vs for k in cv):
+            out.append(c)
+    return out
